@@ -3,6 +3,7 @@ package main
 // rules_c11.go — C11 (normalisation) and C13 (registration gates, panic-free lookup).
 
 import (
+	"go/constant"
 	"fmt"
 	"go/token"
 	"go/types"
@@ -414,15 +415,88 @@ func ruleC13Gate(r *Run) {
 		}
 	}
 	// static tier only for fixed paths
-	isFixed := w.Fn("rux", "isFixedPath")
+	isFixed := w.FnOpt("rux", "isFixedPath")
+	// the same test written in line: no '{' and no '[' in the route's path
+	isRoutePath := func(v ssa.Value) bool { return isLoadOfField(v, tm.path) }
+	var noByteOf func(ch byte, subject func(ssa.Value) bool) func(cond ssa.Value, truth bool) bool
+	noByte := func(ch byte) func(cond ssa.Value, truth bool) bool { return noByteOf(ch, isRoutePath) }
+	noByteOf = func(ch byte, subject func(ssa.Value) bool) func(cond ssa.Value, truth bool) bool {
+		return func(cond ssa.Value, truth bool) bool {
+			if b, okb := cond.(*ssa.BinOp); okb {
+				c, isCall := b.X.(*ssa.Call)
+				if !isCall || (calleeName(c) != "strings.IndexByte" && calleeName(c) != "strings.IndexRune" && calleeName(c) != "strings.Index") || !subject(c.Call.Args[0]) {
+					return false
+				}
+				if k, okk := constInt(c.Call.Args[1]); okk {
+					if k != int64(ch) {
+						return false
+					}
+				} else if sv, oks := constString(c.Call.Args[1]); !oks || sv != string(ch) {
+					return false
+				}
+				k, okk := constInt(b.Y)
+				if !okk {
+					return false
+				}
+				op := b.Op
+				if !truth {
+					op = negOp(op)
+				}
+				return (op == token.LSS && k == 0) || (op == token.EQL && k == -1) || (op == token.LEQ && k == -1)
+			}
+			if c, isCall := cond.(*ssa.Call); isCall && !truth && (calleeName(c) == "strings.Contains" || calleeName(c) == "strings.ContainsRune") && subject(c.Call.Args[0]) {
+				if sv, oks := constString(c.Call.Args[1]); oks && sv == string(ch) {
+					return true
+				}
+				if k, okk := constInt(c.Call.Args[1]); okk && k == int64(ch) {
+					return true
+				}
+			}
+			return false
+		}
+	}
+	if isFixed != nil && len(isFixed.Params) == 1 {
+		// the predicate itself: it answers true only for strings without '{' and without '['
+		isArg := func(v ssa.Value) bool { return v == ssa.Value(isFixed.Params[0]) }
+		okDef := true
+		nRet := 0
+		eachInstr(isFixed, func(in ssa.Instruction) {
+			ret, isRet := in.(*ssa.Return)
+			if !isRet || len(ret.Results) != 1 {
+				return
+			}
+			nRet++
+			phiLeaves(ret.Results[0], in, func(leaf ssa.Value, fact factOracle) {
+				if k, isC := leaf.(*ssa.Const); isC && k.Value != nil && k.Value.Kind() == constant.Bool && !constant.BoolVal(k.Value) {
+					return // answers false
+				}
+				for _, ch := range []byte{'{', '['} {
+					holds := fact(noByteOf(ch, isArg))
+					if !holds {
+						if _, isC := leaf.(*ssa.Const); !isC {
+							c0, pos := stripNot(leaf)
+							holds = noByteOf(ch, isArg)(c0, pos)
+						}
+					}
+					if !holds {
+						okDef = false
+					}
+				}
+			})
+		})
+		r.Check(rule, "rux.isFixedPath:definition", isFixed.Pos(), okDef && nRet > 0, map[bool]string{true: "isFixedPath answers true only for a string with neither '{' nor '['", false: "isFixedPath can answer true for a pattern with a variable or an optional part: such a route enters the static table and is matched literally"}[okDef && nRet > 0])
+	}
 	for _, tu := range tm.tierUpdates() {
 		if tu.f != ar || tu.fv != tm.stable {
 			continue
 		}
-		ok := factHolds(tu.mu, func(cond ssa.Value, truth bool) bool {
+		ok := isFixed != nil && factHolds(tu.mu, func(cond ssa.Value, truth bool) bool {
 			c, isCall := cond.(*ssa.Call)
 			return isCall && staticCallee(c) == isFixed && truth
 		})
+		if !ok {
+			ok = factHolds(tu.mu, noByte('{')) && factHolds(tu.mu, noByte('['))
+		}
 		r.Check(rule, "(*Router).appendRoute:static tier only for fixed paths", w.InstrPos(tu.mu), ok, "only patterns without variables/optional parts enter the static table")
 	}
 	// (2) goodInfo: nil handler, empty methods -> panic
